@@ -322,13 +322,11 @@ Proof.
   - (* Select *)
     eapply good_trans; [|apply select_new_good]. apply good_same_boxes. reflexivity.
   - (* Close *)
-    destruct (resolve st s) as [| | |sl i b]; try apply good_refl.
-    + destruct (lookup s (sess st)) as [sl|]; [|apply good_refl].
-      destruct (s_ro sl); [|apply good_refl].
-      destruct (c_alt ch); [|apply good_refl]. apply good_same_boxes. reflexivity.
-    + destruct (s_ro sl).
-      * destruct (c_alt ch); [|apply good_refl]. apply good_same_boxes. reflexivity.
-      * cbn [fst]. eapply good_trans; [apply remove_msgs_good|]. apply good_same_boxes. reflexivity.
+    destruct (lookup s (sess st)) as [sl|]; [|apply good_refl].
+    destruct (s_ro sl); [apply good_same_boxes; reflexivity|].
+    destruct (find_box st (s_name sl)) as [[i b]|]; [|apply good_same_boxes; reflexivity].
+    destruct (i =? s_bid sl); [|apply good_refl].
+    cbn [fst]. eapply good_trans; [apply remove_msgs_good|]. apply good_same_boxes. reflexivity.
   - (* Logout *) apply good_same_boxes. reflexivity.
   - (* Noop *)
     destruct (resolve st s) as [| | |sl i b]; try apply good_refl.
@@ -356,7 +354,7 @@ Proof.
   - (* Move *)
     destruct (resolve st s) as [| | |sl i b]; try apply good_refl.
     destruct (find_box st nm) as [[j bj]|]; [|apply good_refl].
-    destruct (s_ro sl && c_alt ch); [apply good_refl|].
+    destruct (s_ro sl); [apply good_refl|].
     destruct (pick_ok st s j (c_pick ch)); [|apply good_refl].
     match goal with |- context [copy_loop true i j ?c ?us st] =>
       pose proof (copy_loop_good true i j c us st) as G;
